@@ -6,7 +6,7 @@ import copy
 from props.common import call, viol, hx, set_knobs
 from sim.objects import build, snapshot, order_fingerprint
 from ref import fa, pda as rpda, regexp as rrx
-from gen import fa as genfa, pda as genpda, cfg as gencfg, regexp as genrx, tm as gentm
+from gen import fa as genfa, pda as genpda, cfg as gencfg, regexp as genrx, tm as gentm, edits
 import gambatools.dfa_algorithms as da
 import gambatools.nfa_algorithms as na
 import gambatools.pda_algorithms as pa
@@ -80,6 +80,9 @@ def gen_cases(rng, tier, rnd):
             c['rank'] = {}
             c['steps'] = [{'n': rng.choice(NS)} for _ in range(3)]
         c['abs'] = hx(a)
+        if kind in ('dfa', 'nfa', 'cfg') and rng.random() < 0.3:
+            # object-lifetime history: enumerate, edit the live object in place, enumerate again
+            c['steps'].insert(rng.randint(1, len(c['steps'])), {'edit': edits.propose(rng, c['spec'])})
         cases.append(c)
     return cases
 
@@ -136,6 +139,20 @@ def run_case(case, env):
     else:
         sigma = sorted(s0['Sigma'])
     for step in case['steps']:
+        if 'edit' in step:
+            try:
+                edits.apply(obj, step['edit'])
+            except Exception:
+                pass
+            s0 = snapshot(obj)
+            bad = fa.validate_dfa(s0) if kind == 'dfa' else (fa.validate_nfa(s0) if kind == 'nfa' else None)
+            if bad:
+                return {'harness_error': 'edit produced an invalid object: %s' % (step['edit'],)}
+            if kind != 'regexp':
+                sigma = sorted(s0['Sigma'])
+            out['probes']['inplace_edit_between_calls'] = 1
+            dig.append('edit')
+            continue
         n = step['n']
         out['probes']['n_%d' % min(n, 2)] = 1
         words = fa.words_upto(sigma, n)
@@ -271,7 +288,7 @@ def shrink(case):
         c['spec'] = t
         yield c
     for i, st in enumerate(case['steps']):
-        if st['n'] > 0:
+        if 'n' in st and st['n'] > 0:
             c = copy.deepcopy(case)
             c['steps'][i]['n'] = st['n'] - 1
             yield c
